@@ -13,8 +13,8 @@ import FqModel.Recover
 
   verdicts
     * property predicate (independent of the model): the observation is not `panic:…`.
-      A panic is answered `KNOWN <fmt>:<function>:<kind> …`; lib/runner.py turns every key that is not
-      listed in known_findings.json into a VIOLATION.
+      A panic is answered `PROPFAIL <fmt>:<function>:<kind> …` (`KNOWN …` only for the keys of `knownKeys`,
+      the defect classes with status "known" in known_findings.json — none at present).
     * correspondence: `decodeGroup` run on the outcome vector the observation claims (k recoverable
       failures, then a success or nothing) must give exactly that observation (class, k, i, v);
       `corePrim` must predict the class of a core case. Otherwise DIVERGE.
@@ -57,9 +57,16 @@ def checkObs (obs : String) : String :=
 def isPanic (obs : String) : Bool := obs.startsWith "panic:"
 def isResource (obs : String) : Bool := obs.startsWith "resource:"
 
+/-- keys of defect classes that are recorded as status "known" in known_findings.json (none at present:
+    every panic found so far has been fixed in /repo, so a panic — also the return of a fixed one — is a
+    falsified property: PROPFAIL) -/
+def knownKeys : List String := []
+
 def knownVerdict (obs : String) : String :=
   let key := (obs.drop 6).toString
-  if key.isEmpty || key.contains ' ' then "BADOP panic-key" else s!"KNOWN {key} unhandled runtime fault (model: tree|error)"
+  if key.isEmpty || key.contains ' ' then "BADOP panic-key"
+  else if knownKeys.contains key then s!"KNOWN {key} unhandled runtime fault (model: tree|error)"
+  else s!"PROPFAIL {key} unhandled runtime fault (model: tree|error)"
 
 def decodeVerdict (obs : String) : String :=
   if isPanic obs then knownVerdict obs
@@ -102,13 +109,6 @@ def parsePrim : String → Option Prim
   | "leastbytes" => some .leastbytes | "leastbits" => some .leastbits
   | _ => none
 
-/-- bytes a primitive allocates from its argument without the buffer bounding it -/
-def allocBytes (p : Prim) (a : Int) : Int :=
-  match p with
-  | .bits => bitsByteCount a
-  | .byteslen | .peekbytes | .bytesrange => a
-  | _ => 0
-
 def coreVerdict (sp sa sb spos sf obs : String) : String :=
   match parsePrim sp, sa.toInt?, sb.toNat?, spos.toNat? with
   | some p, some a, some nb, some pos =>
@@ -116,14 +116,11 @@ def coreVerdict (sp sa sb spos sf obs : String) : String :=
     let s : St := { len := Int.ofNat nb * 8, pos := Int.ofNat pos, force := sf == "f" }
     -- the harness decoder is the only format of its group: the class of decodeGroup is the class of the primitive
     let m := (corePrim p s a).cls
-    let mr := (corePrimRepaired p s a).cls     -- recognised once the proposed core repair is applied
     let kindOf (o : String) : String := "panic:" ++ (o.splitOn ":").getLastD ""
-    let agrees := if isPanic obs then kindOf obs == m else (obs == m || (p.unsafeArg && obs == mr))
+    let agrees := if isPanic obs then kindOf obs == m else obs == m
     let div := if agrees then "" else s!" ;DIVERGE model={m}"
     if isPanic obs then knownVerdict obs ++ div
-    else if isResource obs then
-      -- an allocation of more than 1 GiB that the model lets through may exhaust memory instead
-      if allocBytes p a > 1073741824 && !(m.startsWith "panic:") then "OK resource" else s!"DIVERGE model={m}"
+    else if isResource obs then s!"DIVERGE model={m}"   -- no primitive allocates beyond the buffer any more
     else if agrees then "OK" else s!"DIVERGE model={m}"
   | _, _, _, _ => "BADOP parse"
 
